@@ -313,7 +313,7 @@ def find_shallow(
         result = parents.get(sha, None)
         if not result:
             # Try to use commit graph first if available
-            if commit_graph:
+            if commit_graph and sha in store:
                 graph_parents = commit_graph.get_parents(sha)
                 if graph_parents is not None:
                     result = graph_parents
@@ -397,7 +397,7 @@ def get_depth(
 
         # Try to use commit graph for parent lookup if available
         parents = None
-        if commit_graph:
+        if commit_graph and e in store:
             parents = commit_graph.get_parents(e)
 
         if parents is None:
@@ -3860,9 +3860,10 @@ def _collect_ancestors(
             if e in shallow:
                 continue
 
-            # Try to use commit graph for parent lookup
+            # Try to use commit graph for parent lookup. A stale commit graph
+            # may still list commits that were pruned since it was written.
             parents = None
-            if commit_graph:
+            if commit_graph and e in store:
                 parents = commit_graph.get_parents(e)
 
             if parents is None:
